@@ -1,181 +1,252 @@
-"""C05 ISR properties and transition moments (structural clauses)."""
+"""C05 ISR properties and transition moments: derivation skeleton by abstract evaluation."""
 from __future__ import annotations
 
-import ast
+from fractions import Fraction
 
-from ..model import AnalysisError, U, Defs, calls_in, call_name, walk_fn, kwarg, enclosing
-from ..pathcond import conditions
-from . import common, deriv
-from . import c04
+from ..model import AnalysisError
+from ..symex import Obj
+from ..terms import T, sym, kwcall, mcall, t_mul, t_add, t_neg, t_pow, expand_products, args_of, show
+from . import dx
+from .c03 import _table
 
 EXPLANATION = (
-    "D1/D2 on properties.py (order linearity of the norm x (bra, operator, ket) splits; amplitude "
-    "vector | <I| | operator | |J> | amplitude vector order; operator rules passed to wicks). D3: "
-    "the three square-root lifting prefactors take n_o, n_v from the same space whose generic "
-    "indices are summed (left block[0], right block[1], transition-moment space), plus the "
-    "projector/intermediate-state sums they are built from. D5: Properties.operator dispatch "
-    "(operator only at order 0; shift by the ground-state expectation value of the same order "
-    "only for n_create == n_annihilate). R05a: left factors use l_isr/'left'/block[0], right "
-    "factors r_isr/'right'/block[1]; mixed block (l_block[0], r_block[1]); default operator "
-    "string count('p') creators / count('h') annihilators of the minimal space. D1/D2/R04a/R04c/R02c "
-    "on the intermediate-state and norm-factor layers the expressions are built from.")
-ASSUMPTIONS = ["equality with explicit matrix elements is not decided"]
+    "Every method of properties.py is evaluated abstractly (sa.symex) for concrete orders, blocks and spaces with wicks, "
+    "intermediate states, wavefunctions, norm factors, amplitude vectors and the operator left uninterpreted, and the "
+    "evaluated sum of products is compared on every path with the ISR formulas. D5: Properties.operator(n) = (d, rules) "
+    "of Operators.operator only at order 0 and (0, empty rules) beyond, shifted by the ground-state expectation value of "
+    "the same order only for n_create == n_annihilate and subtract_gs. R05a: expec_block_contribution = sum N^(a) "
+    "sum_{i+j+k=m} wicks(p_L p_R X^L_I <I^(i)| d^(j) |J^(k)> Y^R_J, rules of d^(j)) with the left vector/state from "
+    "l_isr on indices generated for block[0], the right ones from r_isr on indices generated for block[1]; "
+    "trans_moment_space = sum N^(a) sum wicks(p X_I <I^(i)| d^(j) |Psi^(k)>) with the default operator string "
+    "count('p') creators / count('h') annihilators of the minimal space; expectation_value / trans_moment sum exactly "
+    "the blocks / classes and orders of the ADC(n) truncation table (mixed block (l_block[0], r_block[1])). D3: the "
+    "1/sqrt(n_o! n_v!) factors belong to the spaces whose indices are summed. D1/D2/D4 are read off the same comparisons. "
+    "The intermediate-state, secular-matrix-table and ground-state layers are checked by the C04/C03/C02 rules, run here too.")
+ASSUMPTIONS = [
+    "equality with explicit matrix elements is not decided",
+    "skeletons are evaluated for orders 0..3 and the listed blocks/spaces only (bounded)",
+]
 
-PR = "properties:Properties."
-
-
-def d3(ctx):
-    rule = "D3"
-    fn = ctx.model.fn(PR + "expec_block_contribution")
-    prefs = deriv.d3_space_sites(ctx, rule, PR + "expec_block_contribution", 2)
-    got = {}
-    for a in [n for n in walk_fn(fn) if isinstance(n, ast.Assign) and U(n.targets[0]) in ("left_pref", "right_pref")]:
-        for sp, node in prefs:
-            if node is a.value:
-                got[U(a.targets[0])] = sp
-    ctx.check(rule, fn, got == {"left_pref": "block[0]", "right_pref": "block[1]"},
-              "left prefactor from block[0], right prefactor from block[1]", f"prefactor spaces are {got}", key="expec pref spaces")
-    kinds = sorted(k for _, k, _ in deriv._lifting_prefactors(fn, Defs(fn)))
-    ctx.check(rule, fn, kinds == ["sqrt", "sqrt"], "amplitude-vector sums use 1/sqrt(n_o! n_v!)", f"kinds {kinds}", key="expec pref kind")
-    deriv.d3_space_sites(ctx, rule, PR + "trans_moment_space", 1)
-    tm = ctx.model.fn(PR + "trans_moment_space")
-    kinds = sorted(k for _, k, _ in deriv._lifting_prefactors(tm, Defs(tm)))
-    ctx.check(rule, tm, kinds == ["sqrt"], "transition moment uses 1/sqrt(n_o! n_v!)", f"kinds {kinds}", key="tm pref kind")
-    c04.d3(ctx)
+PR = dx.PR
 
 
-def r05a(ctx):
+def _objs(scen, variant_r=None):
+    h, gs, isr = scen.objects()
+    mins = {"pp": ["ph", "hp"], "ea": ["p"], "ip": ["h"], "dip": ["hh"], "dea": ["pp"]}
+    l_isr = Obj(dx.IS, "l_isr", gs=gs, variant=scen.variant, min_space=list(mins[scen.variant]), indices=Obj("indices:Indices", "l.indices"))
+    rv = variant_r or scen.variant
+    r_isr = Obj(dx.IS, "r_isr", gs=gs, variant=rv, min_space=list(mins[rv]), indices=Obj("indices:Indices", "r.indices"))
+    l_m = Obj(dx.SM, "l_m", isr=l_isr, gs=gs, h=h)
+    r_m = Obj(dx.SM, "r_m", isr=r_isr, gs=gs, h=h)
+    return Obj(PR, "self", l_isr=l_isr, r_isr=r_isr, l_m=l_m, r_m=r_m, gs=gs, h=h)
+
+
+def _OP(j, nc, na, sg):
+    return mcall(sym("self"), "operator", order=j, n_create=nc, n_annihilate=na, subtract_gs=sg)
+
+
+def _rootlift(space):
+    return t_pow(1 / dx.lift(space), Fraction(-1, 2))
+
+
+def d5(ctx):
+    rule = "D5"
+    fn = ctx.model.fn(PR + ".operator")
+    for order in (0, 1, 2):
+        for nc, na in ((1, 1), (2, 2), (1, 0), (0, 1), (2, 1)):
+            for sg in (True, False):
+                scen = dx.Scenario()
+                sx = dx.make_sx(ctx, "operator", scen)
+                outs = sx.run(fn, lambda: dict(self=_objs(scen), order=order, n_create=nc, n_annihilate=na, subtract_gs=sg))
+                what = f"operator({order}, {nc}, {na}, subtract_gs={sg})"
+                if len(outs) != 1 or outs[0].kind != "return" or not isinstance(dx.val(outs[0]), tuple) or len(dx.val(outs[0])) != 2:
+                    ctx.bad(rule, fn, f"{what}: {outs}", key=f"operator shape {order} {nc} {na} {sg}")
+                    continue
+                op, rules = dx.val(outs[0])
+                src = mcall(sym("h"), "operator", n_create=nc, n_annihilate=na)
+                want = T("item", src, 0) if order == 0 else 0
+                if sg and nc == na:
+                    want = t_add(want, t_neg(mcall(sym("gs"), "expectation_value", order=order, n_particles=nc)))
+                ok = dx.keys(dx.skeleton(op)) == dx.keys(expand_products(want))
+                ctx.check(rule, fn, ok, f"{what}: operator {show(want)[:80]}",
+                          f"{what} returns the operator {show(op)[:200]}, expected {show(want)[:200]}", key=f"operator {order} {nc} {na} {sg}")
+                if order == 0:
+                    okr = rules == T("item", src, 1)
+                else:
+                    okr = isinstance(rules, T) and rules.op == "call" and rules.args[0] == "Rules" and all(v is None for v in args_of(rules).values())
+                ctx.check(rule, fn, okr, f"{what}: rules of the operator", f"{what} returns the rules {show(rules)[:120]}",
+                          key=f"operator rules {order} {nc} {na} {sg}")
+
+
+def r05a_block(ctx):
     rule = "R05a"
-    fn = ctx.model.fn(PR + "expec_block_contribution")
-    want = {
-        "left_idx": "block[0]", "right_idx": "block[1]",
-    }
-    for name, sp in want.items():
-        a = [x for x in common.assigns_to(fn, name)]
-        ok = len(a) == 1 and f"generic_indices_from_space({sp})" in U(a[0].value)
-        ctx.check(rule, fn, ok, f"{name} generated for {sp}", f"{name} is not generated from {sp}", key=f"{name} space")
-    la = [x for x in common.assigns_to(fn, "left_ampl")]
-    ra = [x for x in common.assigns_to(fn, "right_ampl")]
-    ok = len(la) == 1 and common.call_is(la[0].value, "self.l_isr.amplitude_vector", ["indices", "lr"], indices="left_idx", lr="'left'")
-    ctx.check(rule, fn, ok, "left amplitude vector: l_isr, left indices, 'left'", f"left amplitude is `{U(la[0].value) if la else None}`",
-              key="left ampl")
-    ok = len(ra) == 1 and common.call_is(ra[0].value, "self.r_isr.amplitude_vector", ["indices", "lr"], indices="right_idx", lr="'right'")
-    ctx.check(rule, fn, ok, "right amplitude vector: r_isr, right indices, 'right'", f"right amplitude is `{U(ra[0].value) if ra else None}`",
-              key="right ampl")
-    prods = [n for n in walk_fn(fn) if isinstance(n, ast.Assign) and U(n.targets[0]) == "i1"]
-    ctx.floor(rule, "expectation value product", len(prods), 1)
-    for p in prods:
-        fs = deriv.flatten_mult(p.value)
-        names = [call_name(f) if isinstance(f, ast.Call) else U(f) for f in fs]
-        ctx.check(rule, p, names == ["left_pref", "right_pref", "left_ampl", "intermediate_state", "op", "intermediate_state", "right_ampl"]
-                  or (sorted(names[:3]) == ["left_ampl", "left_pref", "right_pref"] and names[3:] == ["intermediate_state", "op", "intermediate_state", "right_ampl"]),
-                  "X_I <I| d |J> Y_J with both prefactors", f"expectation value product factors are {names}", key="expec product")
-        states = [f for f in fs if isinstance(f, ast.Call) and call_name(f) == "intermediate_state"]
-        for f in states:
-            bk = kwarg(f, "braket", 2).value
-            isr, k, idx = ("self.l_isr", 0, "left_idx") if bk == "bra" else ("self.r_isr", 1, "right_idx")
-            ok = U(f.func.value) == isr and U(kwarg(f, "space", 1)) == f"block[{k}]" and U(kwarg(f, "indices", 3)) == idx
-            ctx.check(rule, f, ok, f"{bk} state: {isr}, block[{k}], {idx}", f"{bk} state is `{U(f)[:90]}`", key=f"expec {bk} state")
-    op = [n for n in walk_fn(fn) if isinstance(n, ast.Assign) and U(n.targets[0]) == "(op, rules)"]
-    for a in op:
-        v = a.value
-        ok = call_name(v) == "operator" and U(kwarg(v, "n_create", 1)) == "n_particles" and U(kwarg(v, "n_annihilate", 2)) == "n_particles" \
-            and U(kwarg(v, "subtract_gs", 3)) == "subtract_gs"
-        ctx.check(rule, a, ok, "n-particle operator with forwarded shift flag", f"operator request `{U(v)[:90]}`", key="expec operator")
-    adds = [n for n in walk_fn(fn) if isinstance(n, ast.AugAssign) and U(n.target) == "res"]
-    ctx.check(rule, fn, len(adds) == 1 and isinstance(adds[0].op, ast.Add) and U(adds[0].value) == "(norm * expec).expand()",
-              "norm * expectation added", "accumulation changed", key="expec add")
-    # expectation_value: mixed blocks
-    ev = ctx.model.fn(PR + "expectation_value")
-    b = [x for x in common.assigns_to(ev, "block")]
-    ctx.check(rule, ev, len(b) == 1 and U(b[0].value) == "(l_block[0], r_block[1])", "mixed block (left bra space, right ket space)",
-              f"mixed block is `{U(b[0].value) if b else None}`", key="mixed block")
-    lb = [x for x in common.assigns_to(ev, "left_blocks")]
-    rb = [x for x in common.assigns_to(ev, "right_blocks")]
-    ok = len(lb) == 2 and U(lb[0].value) == "self.l_m.block_order(adc_order)" and len(rb) == 2 \
-        and U(rb[0].value) == "self.r_m.block_order(adc_order)"
-    ctx.check(rule, ev, ok, "left blocks from l_m, right blocks from r_m", "block lists changed", key="block lists")
-    if ok:
-        kl = U(kwarg(lb[1].value, "key")).replace("tpl[0]", "B")
-        kr = U(kwarg(rb[1].value, "key")).replace("bl", "B").replace("lambda B", "lambda tpl")
-        ctx.check(rule, ev, kl == kr, "both block lists sorted with the same key", f"sort keys differ: {kl} / {kr}", key="block sort")
-    conts = [n for n in walk_fn(ev) if isinstance(n, ast.Continue)]
-    ok = len(conts) == 1 and U(conts[0]._parent.test) == "order is not None and max_order < order"
-    ctx.check(rule, ev, ok, "block skipped iff not expanded through the order", "block selection changed", key="expec selection")
-    og = {}
-    for a in [n for n in walk_fn(ev) if isinstance(n, ast.Assign) and U(n.targets[0]) == "orders_to_gen"]:
-        og["none" if ("order is None", True) in conditions(a) else "given"] = U(a.value).replace(" ", "")
-    ctx.check(rule, ev, og == {"none": "list(range(max_order+1))", "given": "[order]"}, "orders 0..max or the requested one",
-              f"orders to generate: {og}", key="orders to gen")
-    # transition moments
-    tm = ctx.model.fn(PR + "trans_moment_space")
-    d = {}
-    for a in [n for n in walk_fn(tm) if isinstance(n, ast.Assign) and U(n.targets[0]) in ("n_create", "n_annihilate")]:
-        par = a._parent
-        if isinstance(par, ast.If) and a in par.body and U(par.test) == "n_create is None and n_annihilate is None":
-            d[U(a.targets[0])] = U(a.value)
-    ctx.check(rule, tm, d == {"n_create": "isr.min_space[0].count('p')", "n_annihilate": "isr.min_space[0].count('h')"},
-              "default operator: one creator per p, one annihilator per h of the minimal space", f"default operator string is {d}",
-              key="default operator")
-    isr = [n for n in walk_fn(tm) if isinstance(n, ast.Dict)]
-    ok = any({U(k): U(v) for k, v in zip(x.keys, x.values)} == {"'left'": "self.l_isr", "'right'": "self.r_isr"} for x in isr)
-    ctx.check(rule, tm, ok, "lr_isr selects l_isr / r_isr", "isr selection table changed", key="tm isr table")
-    am = [x for x in common.assigns_to(tm, "ampl")]
-    ok = len(am) == 1 and common.call_is(am[0].value, "isr.amplitude_vector", ["indices", "lr"], indices="idx", lr="'left'")
-    ctx.check(rule, tm, ok, "left amplitude vector on the summed indices", "transition-moment amplitude vector changed", key="tm ampl")
-    prods = [n for n in walk_fn(tm) if isinstance(n, ast.Assign) and U(n.targets[0]) == "i1"]
-    for p in prods:
-        fs = deriv.flatten_mult(p.value)
-        names = [call_name(f) if isinstance(f, ast.Call) else U(f).split("[")[0] for f in fs]
-        ctx.check(rule, p, sorted(names[:2]) == ["ampl", "pref"] and names[2:] == ["intermediate_state", "op", "mp"],
-                  "X_I <I| d |Psi_0>", f"transition moment factors are {names}", key="tm product")
-        for f in fs:
-            if isinstance(f, ast.Call) and call_name(f) == "intermediate_state":
-                ok = U(f.func.value) == "isr" and U(kwarg(f, "space", 1)) == "space" and U(kwarg(f, "braket", 2)) == "'bra'" \
-                    and U(kwarg(f, "indices", 3)) == "idx"
-                ctx.check(rule, f, ok, "bra intermediate state of the requested space", f"`{U(f)[:80]}`", key="tm state")
-    mo = ctx.model.fn(PR + "trans_moment")
-    md = [n for n in walk_fn(mo) if isinstance(n, ast.Dict)]
-    ok = any({U(k): U(v) for k, v in zip(x.keys, x.values)} == {"'left'": "self.l_m", "'right'": "self.r_m"} for x in md)
-    ctx.check(rule, mo, ok, "secular matrix of the same side", "matrix selection table changed", key="tm matrix table")
-    init = ctx.model.fn(PR + "__init__")
-    a = [x for x in common.assigns_to(init, "self.r_isr")]
-    ctx.check(rule, init, len(a) == 1 and U(a[0].value) == "self.l_isr if r_isr is None else r_isr", "r_isr defaults to l_isr",
-              "r_isr default changed", key="r_isr default")
+    fn = ctx.model.fn(PR + ".expec_block_contribution")
+    n = 0
+    for order in (0, 1, 2, 3):
+        for block in (("ph", "ph"), ("ph", "pphh"), ("pphh", "ph"), ("pphh", "pphh"), ("h", "phh"), ("phh", "h"), ("phh", "phh"),
+                      ("p", "pph"), ("pph", "pph"), ("hh", "phhh")):
+            if order == 3 and block != ("ph", "ph"):
+                continue
+            if order == 2 and block[0] not in ("ph", "h"):
+                continue
+            for npart in (1, 2):
+                if npart == 2 and (order > 1 or block != ("ph", "pphh")):
+                    continue
+                scen = dx.Scenario(variant={"ph": "pp", "pphh": "pp", "h": "ip", "phh": "ip", "p": "ea", "pph": "ea", "hh": "dip"}[block[0]])
+                sx = dx.make_sx(ctx, "expec_block_contribution", scen, max_paths=8192)
+                outs = sx.run(fn, lambda: dict(self=_objs(scen), order=order, block=",".join(block), n_particles=npart, subtract_gs=sym("SG")))
+                what = f"expec_block_contribution({order}, {block}, {npart})"
+                gens = list(scen.generated.items())
+                ok = sorted(sp for _, sp in gens) == sorted(block)
+                ctx.check("D3", fn, ok, f"{what}: summed indices generated for the bra space {block[0]} and the ket space {block[1]}",
+                          f"{what}: indices generated for {[sp for _, sp in gens]}, expected {list(block)}", key=f"expec generated {order} {block} {npart}")
+                if not ok:
+                    continue
+                # the first generated string belongs to block[0], the second to block[1] when both spaces are equal
+                if block[0] == block[1]:
+                    gL, gR = gens[0][0], gens[1][0]
+                else:
+                    gL = [g for g, sp in gens if sp == block[0]][0]
+                    gR = [g for g, sp in gens if sp == block[1]][0]
+                XL = mcall(sym("l_isr"), "amplitude_vector", indices=gL, lr="left")
+                YR = mcall(sym("r_isr"), "amplitude_vector", indices=gR, lr="right")
+                pref = t_mul(_rootlift(block[0]), _rootlift(block[1]))
+
+                def formula_for(gl, gr):
+                    XL_ = mcall(sym("l_isr"), "amplitude_vector", indices=gl, lr="left")
+                    YR_ = mcall(sym("r_isr"), "amplitude_vector", indices=gr, lr="right")
+                    out = []
+                    for a, m in dx.compositions(order, 2):
+                        for i, j, k in dx.compositions(m, 3):
+                            O = _OP(j, npart, npart, sym("SG"))
+                            out.append(t_mul(mcall(sym("gs"), "norm_factor", order=a), kwcall(
+                                "wicks", expr=t_mul(pref, XL_, mcall(sym("l_isr"), "intermediate_state", order=i, space=block[0], braket="bra", indices=gl),
+                                                    T("item", O, 0),
+                                                    mcall(sym("r_isr"), "intermediate_state", order=k, space=block[1], braket="ket", indices=gr), YR_),
+                                rules=T("item", O, 1), simplify_kronecker_deltas=True)))
+                    return out
+                formula = formula_for(gL, gR)
+                if block[0] == block[1]:
+                    # which of the two strings is generated first is not behaviour
+                    probe = [o for o in outs if o.kind == "return" and not dx.zero_tests(o)]
+                    if probe and dx.keys(dx.skeleton(probe[0].value)) != dx.keys(sum((expand_products(p) for p in formula), [])):
+                        formula = formula_for(gR, gL)
+                n += dx.check_formula(ctx, rule, fn, what, outs, formula, key=f"expec {order} {block[0]},{block[1]} {npart}")
+    ctx.floor(rule, "expec_block_contribution paths equal to the formula", n, 20)
+
+
+def r05a_tm(ctx):
+    rule = "R05a"
+    fn = ctx.model.fn(PR + ".trans_moment_space")
+    cases = (("pp", "ph", None, None, 1, 1), ("pp", "pphh", None, None, 1, 1), ("ip", "h", None, None, 0, 1), ("ea", "pph", None, None, 1, 0),
+             ("dip", "hh", None, None, 0, 2), ("pp", "ph", 2, 2, 2, 2), ("ip", "phh", None, 1, 0, 1), ("ea", "p", 1, None, 1, 0))
+    n = 0
+    mixed = (("pp", "ip", "h", None, None, 0, 1), ("pp", "ea", "p", None, None, 1, 0), ("ip", "pp", "ph", None, None, 1, 1),
+             ("dip", "ea", "pph", None, None, 1, 0))
+    for case in [(v, None) + tuple(rest) for v, *rest in cases] + [(vl, vr) + tuple(rest) for vl, vr, *rest in mixed]:
+        variant, variant_r, space, nc, na, wnc, wna = case
+        for lr in ("left", "right"):
+            if variant_r is not None and lr == "left":
+                continue
+            for order in (0, 1, 2):
+                if lr == "right" and order != 1:
+                    continue
+                scen = dx.Scenario(variant=variant)
+                sx = dx.make_sx(ctx, "trans_moment_space", scen, max_paths=8192)
+                outs = sx.run(fn, lambda: dict(self=_objs(scen, variant_r=variant_r), order=order, space=space, n_create=nc, n_annihilate=na,
+                                               lr_isr=lr, subtract_gs=sym("SG")))
+                what = f"{variant}{'/' + variant_r if variant_r else ''}: trans_moment_space({order}, {space}, n_create={nc}, n_annihilate={na}, {lr})"
+                gens = [g for g, sp in scen.generated.items() if sp == space]
+                ctx.check("D3", fn, len(gens) == 1 and len(scen.generated) == 1, f"{what}: summed indices generated for the space {space}",
+                          f"{what}: indices generated for {sorted(scen.generated.values())}", key=f"tm generated {variant} {variant_r} {space} {lr} {order} {nc} {na}")
+                if len(gens) != 1:
+                    continue
+                g = gens[0]
+                isr = sym("l_isr" if lr == "left" else "r_isr")
+                X = mcall(isr, "amplitude_vector", indices=g, lr="left")
+                formula = []
+                for a, m in dx.compositions(order, 2):
+                    for i, j, k in dx.compositions(m, 3):
+                        O = _OP(j, wnc, wna, sym("SG"))
+                        formula.append(t_mul(mcall(sym("gs"), "norm_factor", order=a), kwcall(
+                            "wicks", expr=t_mul(_rootlift(space), X, mcall(isr, "intermediate_state", order=i, space=space, braket="bra", indices=g),
+                                                T("item", O, 0), mcall(sym("gs"), "psi", order=k, braket="ket")),
+                            rules=T("item", O, 1), simplify_kronecker_deltas=True)))
+                n += dx.check_formula(ctx, rule, fn, what, outs, formula, key=f"tm {variant} {variant_r} {space} {lr} {order} {nc} {na}")
+    ctx.floor(rule, "trans_moment_space paths equal to the formula", n, 20)
+
+
+def r05a_sums(ctx):
+    rule = "R05a"
+    extra = {f"{dx.SM}.block_order", f"{dx.SM}.max_ptorder_spaces"}
+    fn = ctx.model.fn(PR + ".expectation_value")
+    for variant in ("pp", "ip"):
+        for n in (0, 1, 2, 3):
+            for order in (None, 0, 1, n):
+                for npart in (1, 2):
+                    if npart == 2 and n != 2:
+                        continue
+                    scen = dx.Scenario(variant=variant)
+                    sx = dx.make_sx(ctx, "expectation_value", scen, extra_inline=extra)
+                    outs = sx.run(fn, lambda: dict(self=_objs(scen), adc_order=n, n_particles=npart, order=order, subtract_gs=sym("SG")))
+                    what = f"{variant}-ADC({n}) expectation_value(order={order}, n_particles={npart})"
+                    if len(outs) != 1 or outs[0].kind != "return":
+                        ctx.bad(rule, fn, f"{what}: {outs}", key=f"expectation shape {variant} {n} {order} {npart}")
+                        continue
+                    want = [mcall(sym("self"), "expec_block_contribution", order=o, block=blk, n_particles=npart, subtract_gs=sym("SG"))
+                            for blk, mo in _table(scen, n).items() for o in (range(mo + 1) if order is None else [order] if order <= mo else [])]
+                    dx.compare(ctx, rule, fn, what, dx.keys(dx.skeleton(outs[0].value)), dx.keys(expand_products(t_add(*want)) if want else []),
+                               key=f"expectation {variant} {n} {order} {npart}")
+    fn = ctx.model.fn(PR + ".trans_moment")
+    for variant in ("pp", "ip", "dea"):
+        for n in (0, 1, 2, 3):
+            for order in (None, 0, 1, n):
+                for lr in ("left", "right"):
+                    if lr == "right" and n != 2:
+                        continue
+                    scen = dx.Scenario(variant=variant)
+                    sx = dx.make_sx(ctx, "trans_moment", scen, extra_inline=extra)
+                    outs = sx.run(fn, lambda: dict(self=_objs(scen), adc_order=n, n_create=sym("NC"), n_annihilate=sym("NA"), order=order, lr_isr=lr,
+                                                   subtract_gs=sym("SG")))
+                    what = f"{variant}-ADC({n}) trans_moment(order={order}, {lr})"
+                    if len(outs) != 1 or outs[0].kind != "return":
+                        ctx.bad(rule, fn, f"{what}: {outs}", key=f"trans_moment shape {variant} {n} {order} {lr}")
+                        continue
+                    table = _table(scen, n)
+                    classes = {a: table[(a, a)] for a in {x for x, _ in table}}
+                    ms = min(classes, key=len)
+                    classes = {a: n - (len(a) - len(ms)) // 2 for a in classes}
+                    want = [mcall(sym("self"), "trans_moment_space", order=o, space=sp, n_create=sym("NC"), n_annihilate=sym("NA"), lr_isr=lr,
+                                  subtract_gs=sym("SG"))
+                            for sp, mo in classes.items() for o in (range(mo + 1) if order is None else [order] if order <= mo else [])]
+                    dx.compare(ctx, rule, fn, what, dx.keys(dx.skeleton(outs[0].value)), dx.keys(expand_products(t_add(*want)) if want else []),
+                               key=f"trans_moment {variant} {n} {order} {lr}")
+    # mixed left/right variants: block (l_block[0], r_block[1]) pairs the i-th blocks of both tables
+    fn = ctx.model.fn(PR + ".expectation_value")
+    scen = dx.Scenario(variant="pp")
+    sx = dx.make_sx(ctx, "expectation_value", scen, extra_inline=extra)
+    outs = sx.run(fn, lambda: dict(self=_objs(scen, variant_r="ip"), adc_order=2, n_particles=1, order=None, subtract_gs=sym("SG")))
+    if len(outs) == 1 and outs[0].kind == "return":
+        tl = _table(dx.Scenario(variant="pp"), 2)
+        tr = _table(dx.Scenario(variant="ip"), 2)
+        srt = lambda t: sorted(t.items(), key=lambda kv: (len(kv[0][0]), len(kv[0][1])))
+        want = [mcall(sym("self"), "expec_block_contribution", order=o, block=(lb[0], rb[1]), n_particles=1, subtract_gs=sym("SG"))
+                for (lb, mo), (rb, _) in zip(srt(tl), srt(tr)) for o in range(mo + 1)]
+        dx.compare(ctx, rule, fn, "expectation_value with a pp left and an ip right ISR", dx.keys(dx.skeleton(outs[0].value)),
+                   dx.keys(expand_products(t_add(*want))), key="expectation mixed variants")
+    else:
+        ctx.bad(rule, fn, f"expectation_value with mixed variants: {outs}", key="expectation mixed variants")
 
 
 def run(ctx):
-    if ctx.want("D1"):
-        deriv.d1(ctx, "D1", "properties", 4)
-    if ctx.want("D2"):
-        deriv.d2(ctx, "D2", "properties", 2)
-    if ctx.want("D3"):
-        d3(ctx)
+    from . import c04, c03
     if ctx.want("D5"):
-        deriv.d5_operator(ctx, "D5")
+        d5(ctx)
+    if ctx.want("R05a") or ctx.want("D3"):
+        r05a_block(ctx)
+        r05a_tm(ctx)
     if ctx.want("R05a"):
-        r05a(ctx)
-    # layers the property expressions are built from
-    if ctx.want("D1"):
-        deriv.d1(ctx, "D1", "intermediate_states", 9)
-    if ctx.want("D2"):
-        deriv.d2(ctx, "D2", "intermediate_states", 6)
-    if ctx.want("R04a"):
-        c04.r04a(ctx)
-    if ctx.want("R04c"):
-        c04.r04c(ctx)
-    if ctx.want("R02c"):
-        from . import c02
-        c02.r02c(ctx)
-        c02.taylor_builder(ctx, "R02c", c04.IS + "expand_S_taylor", "-0.5")
-    # ground-state layer (wavefunctions, norm factors) every expression is built from
-    from . import c02
-    if ctx.want("D1"):
-        deriv.d1(ctx, "D1", "groundstate", 6)
-    if ctx.want("D2"):
-        deriv.d2(ctx, "D2", "groundstate", 6)
-    if ctx.want("D3"):
-        c02.d3_psi(ctx)
-        c02.d3_operator(ctx)
-    if ctx.want("R02a"):
-        c02.r02a(ctx)
+        r05a_sums(ctx)
+    if ctx.want("R03b"):
+        c03.r03b(ctx)
+    c04.lower_layers(ctx)
